@@ -38,6 +38,15 @@ Theorem C20_check_exit : forall a parse lint render,
 Proof. exact decide_check_exit. Qed.
 Print Assumptions C20_check_exit.
 
+(* ... and so does the process status the caller sees (the low 8 bits of the exit code: the
+   code is 0 or 1, never a warning count that could wrap around to 0) *)
+Theorem C20_check_status : forall a parse lint render,
+  check a = true ->
+  (process_status (decide a parse lint render) <> 0 <->
+   parse false <> POk \/ (disable_linter a = false /\ (0 < lint)%nat)).
+Proof. exact decide_check_status. Qed.
+Print Assumptions C20_check_status.
+
 (* style-guide-conforming names are fixed points of the naming helpers ... *)
 Theorem C20_pascal_conforming : forall s, pascal_ok s = true -> pascal_case s = s.
 Proof. exact pascal_ok_fixed. Qed.
